@@ -404,6 +404,45 @@ def run(tier: str, seed: int) -> int:
         extra_w = c20_gen.focused_cases(gen_world_case, rng, maxops + 10, tr["function"], 4 * n_world)
         extra_r = c20_gen.focused_cases(gen_rel_case, rng, maxops + 10, tr["function"], 4 * n_rel)
 
+    # ---- an operation that RAISES is all-or-nothing too: items whose price / weight cannot be computed (value None or a
+    # string, weight None) make buy / sell / add raise; wallet, inventory and stock must then be exactly as before ----
+    with C.quiet():
+        from bardic.stdlib.economy import Wallet as _W, Shop as _S
+        from bardic.stdlib.inventory import Inventory as _I
+        import copy as _copy
+        n_exc = 0
+        for k in range(60 if tier == "quick" else 600):
+            r = random.Random(rng.randrange(10 ** 9))
+            # (weights stay numeric: an item whose WEIGHT cannot be added is outside the documented item format, and buy then
+            # charges before Inventory.add raises - noted in DESIGN.md, not judged here)
+            odd = lambda nm: {"name": nm, "weight": r.choice([1, 2, 0.5]), "value": r.choice([5, None, "v", 3])}  # noqa
+            w, inv = _W(r.choice([0, 10, 50])), _I(r.choice([3, 10]))
+            inv.items = [odd(r.choice(["Rope", "Gem"])) for _ in range(r.randint(0, 3))]
+            shop = _S([odd(r.choice(["Rope", "Gem", "Map"])) for _ in range(r.randint(1, 3))], sell_back_rate=r.choice([0.5, "x"]))
+            for _ in range(r.randint(1, 5)):
+                op = r.choice(["buy", "sell", "add", "remove"])
+                nm = r.choice(["Rope", "Gem", "Map"])
+                before = (w.gold, _copy.deepcopy(inv.items), _copy.deepcopy(shop.items))
+                try:
+                    if op == "buy":
+                        shop.buy(nm, w, inv)
+                    elif op == "sell":
+                        shop.sell(nm, w, inv)
+                    elif op == "add":
+                        inv.add(odd(nm))
+                    else:
+                        inv.remove(nm)
+                except Exception as e:  # noqa
+                    n_exc += 1
+                    after = (w.gold, inv.items, shop.items)
+                    if after != before:
+                        chk.report(f"{op}-not-atomic-when-it-raises", f"{op}({nm!r}) raised {type(e).__name__} and left a change behind: "
+                                   f"gold {before[0]} -> {after[0]}, items {[i.get('name') for i in before[1]]} -> "
+                                   f"{[i.get('name') for i in after[1]]}", {"op": op, "item": nm, "items_before": before[1], "stock": before[2]})
+                        break
+            chk.count(("raise-atomic", k), True)
+        dist["operations_that_raised"] = n_exc
+
     # ---- pinned known-finding witnesses ----
     with C.quiet():
         from bardic.stdlib.economy import Wallet, Shop
